@@ -117,14 +117,14 @@ func c10Refs(L int) []string {
 func init() {
 	maxL := func(tier string) int {
 		if tier == "thorough" {
-			return 8
+			return 9
 		}
 		return 6
 	}
 	register(&Prop{
 		ID:    "C10",
 		Level: "model_checking",
-		Rule: "bounded-exhaustive enumeration against a direct transcription of the statement: every sequence over {A,C,R,N,-} of length 1..6 (thorough 8) against three references of the same length (all-A, alternating A/C, and one containing R, N and '-'), up to 2000 rows per call (so rows also follow every other row), plus lower-case and other IUPAC symbols on length-3 sequences. A case is one (reference, sequence); non-trivial = the sequence has an ambiguity or a SNP; each generated once",
+		Rule: "bounded-exhaustive enumeration against a direct transcription of the statement: every sequence over {A,C,R,N,-} of length 1..6 (thorough 9) against three references of the same length (all-A, alternating A/C, and one containing R, N and '-'), up to 2000 rows per call (so rows also follow every other row), plus lower-case and other IUPAC symbols on length-3 sequences. A case is one (reference, sequence); non-trivial = the sequence has an ambiguity or a SNP; each generated once",
 		Assumptions: []string{
 			"expected row: ambiguity ranges = maximal runs of non-A/C/G/T columns (1-based inclusive, 'a' or 'a-b'); SNPs = A/C/G/T columns whose base is not in the reference symbol's set; both counts",
 			"each call runs on the canonical (run-to-block) schedule with NumCPU=2, in which workers run ahead of the writer as far as the channel buffers allow",
